@@ -28,6 +28,9 @@ type c07Case struct {
 	// CloneFrom/CloneTo: ops[CloneFrom:CloneTo] are emitted into a Clone which is then appended back (0,0 = emit directly)
 	CloneFrom int `json:"clone_from,omitempty"`
 	CloneTo   int `json:"clone_to,omitempty"`
+	// Probe > 0: before op Probe a dry-run clone (no buffer) is made, switched to the opposite widths and
+	// discarded (measuring a code variant); the emitter in use keeps its own widths
+	Probe int `json:"probe,omitempty"`
 }
 
 type c07Result struct {
@@ -64,6 +67,26 @@ func c07Check(c c07Case, res *c07Result) error {
 		if useClone && i == c.CloneTo {
 			if err := join(); err != nil {
 				return err
+			}
+		}
+		if c.Probe > 0 && i == c.Probe {
+			var pan interface{}
+			func() {
+				defer func() { pan = recover() }()
+				probe := p.em.Clone(nil)
+				if byte(probe.Flags())&0x30 == 0x30 {
+					probe.REP(0x30)
+					probe.LDA_imm16_w(0x1234)
+				} else {
+					probe.SEP(0x30)
+					probe.LDA_imm8_b(0x12)
+				}
+			}()
+			if pan != nil {
+				return fmt.Errorf("before op %d: a dry-run clone refused a width switch followed by a matching immediate: %v", i, pan)
+			}
+			if byte(p.em.Flags()) != p.m.Flags {
+				return fmt.Errorf("before op %d: a discarded dry-run clone switched widths and the emitter in use now tracks flags %02x instead of %02x", i, byte(p.em.Flags()), p.m.Flags)
 			}
 		}
 		pre := p.m.Flags
@@ -302,6 +325,10 @@ func TestC07(t *testing.T) {
 					if c.CloneTo <= c.CloneFrom {
 						c.CloneFrom, c.CloneTo = 0, 0
 					}
+				}
+				if len(c.Ops) > 1 && rapid.IntRange(0, 3).Draw(t, "probe-clone") == 0 {
+					c.Probe = rapid.IntRange(1, len(c.Ops)-1).Draw(t, "probe-at")
+					ev.Class("dry-run-clone-switched-widths-and-was-discarded")
 				}
 				var res c07Result
 				r.Check(t, "rapid", c, func() error { return c07Check(c, &res) })
